@@ -78,6 +78,9 @@ type Mode struct {
 	// WrapErrors: like stores in the field, every error leaves the store annotated (pkg/errors WithStack): callers have to
 	// use errors.Is / errors.As, comparing with == does not work.
 	WrapErrors bool
+	// RowCount: revoking by request id reports fosite.ErrNotFound when no record matched (an UPDATE/DELETE that affected zero
+	// rows), which the handlers explicitly tolerate; the reference store answers nil.
+	RowCount bool
 }
 
 // IStore wraps the reference MemoryStore.
@@ -573,7 +576,12 @@ func (s *IStore) RevokeRefreshToken(ctx context.Context, requestID string) error
 		s.leave(c, e)
 		return s.w(e)
 	}
-	err := s.exec(c, func(m *storage.MemoryStore) error { return m.RevokeRefreshToken(ctx, requestID) })
+	err := s.exec(c, func(m *storage.MemoryStore) error {
+		if s.Mode.RowCount && !hasRequestID(m, requestID, true) {
+			return fosite.ErrNotFound
+		}
+		return m.RevokeRefreshToken(ctx, requestID)
+	})
 	s.leave(c, err)
 	return s.w(err)
 }
@@ -584,9 +592,32 @@ func (s *IStore) RevokeAccessToken(ctx context.Context, requestID string) error 
 		s.leave(c, e)
 		return s.w(e)
 	}
-	err := s.exec(c, func(m *storage.MemoryStore) error { return m.RevokeAccessToken(ctx, requestID) })
+	err := s.exec(c, func(m *storage.MemoryStore) error {
+		if s.Mode.RowCount && !hasRequestID(m, requestID, false) {
+			return fosite.ErrNotFound
+		}
+		return m.RevokeAccessToken(ctx, requestID)
+	})
 	s.leave(c, err)
 	return s.w(err)
+}
+
+// hasRequestID reports whether a live refresh-token (or any access-token) record of the request id exists.
+func hasRequestID(m *storage.MemoryStore, requestID string, refresh bool) bool {
+	if refresh {
+		for _, rel := range m.RefreshTokens {
+			if rel.Requester != nil && rel.Requester.GetID() == requestID {
+				return true
+			}
+		}
+		return false
+	}
+	for _, r := range m.AccessTokens {
+		if r != nil && r.GetID() == requestID {
+			return true
+		}
+	}
+	return false
 }
 
 // ---- resource owner ---------------------------------------------------------
